@@ -474,7 +474,7 @@ def run(ctx: F.Ctx):
             "pending; same after an earlier stamped edit; same after a page was deleted and the "
             "index followed; same after a new page was added, the last page broken and a plain "
             "reindex refused; same after one run that wrote a ZID back, dropped a vanished page and took in a new page), "
-            "plus the indexed directory one day later on a machine at UTC+2 at 00:30 and at UTC-8 at 19:30 (local calendar day != UTC calendar day; events: body edit, kind change, new note, R, Rp, D; depth one less), plus a small directory with a 140-note page of 12 KiB whose LAST note is edited (events: that edit, a body edit, a new note, R, Rp, D), over 18 events: edit a body, change a "
+            "plus the indexed directory one day later on a machine at UTC+2 at 00:30 and at UTC-8 at 19:30 (local calendar day != UTC calendar day; events: body edit, kind change, new note, R, Rp, D; depth one less), plus scripted sessions of ONE long-lived `zorg edit` process (7 scenarios x midnight passing in no / each session: the editor is closed with the keep-alive file in place, zorg reindexes in the same process and reopens it), plus a small directory with a 140-note page of 12 KiB whose LAST note is edited (events: that edit, a body edit, a new note, R, Rp, D), over 18 events: edit a body, change a "
             "todo's kind, add a ZID-less note, delete a note, move a note between pages whose header "
             "blocks give one property different values, add a page, "
             "delete a page, rename a page, bring the vanished page back byte-identical, edit title-line tags, edit a section header, drop the "
@@ -497,12 +497,27 @@ def run(ctx: F.Ctx):
     # the zones, to a smaller depth
     for sz in make_zone_inits(day):
         total.merge(B.search(ctx, [sz], ZONE_EVENTS, step, depth - 1, max_states=None if ctx.quick else 30000))
+    # one long-lived `zorg edit` process that reindexes several times (the edits are made in the editor)
+    from mc.checks import sessions
+
+    total.merge(F.explore(ctx, sessions.cases(ctx), lambda c: _run_session(ctx, c), sample=sessions.sample, day=day))
     total.samples = total.samples[:4]
     return total, meta
 
 
+def _run_session(ctx, case) -> F.Outcome:
+    from mc.checks import sessions
+
+    try:
+        return sessions.run_case(ctx, case, {"rebuild", "index-vs-files"})
+    finally:
+        H.freeze(H.rotate(_DAYS, ctx.seed)[0])
+
+
 def replay(case, ctx: F.Ctx) -> F.Outcome:
     """Re-run one history from its initial state without the explorer."""
+    if isinstance(case, list) and case and case[0] == "session":
+        return _run_session(ctx, case)
     day = H.rotate(_DAYS, ctx.seed)[0]
     H.freeze(day)
     if case["init"] == "long-page":
